@@ -95,6 +95,29 @@ CHECKS = {
          "without active flow controllers, heat consumers and pressure controllers, where graph connectivity and hydraulic coupling are not meant to "
          "coincide. Nets up to 4 junctions / 4 branches / 2 pipe-valves.",
     technique="TLA+ connectivity/graph semantics (PPConn, Trace_Graph) + TLC-generated nets replayed into pandapipes.topology and pipeflow + trace validation"),
+ "C15": dict(
+    level="model_checking",
+    text="Save/load steps (to_json string / file / encrypted, to_pickle) are actions of the call-history machine MC_Hist; TLC emits all 2-op and "
+         "simulated 4-op histories mixing save/load with runs and edits; they are replayed on a zoo of real nets (every component kind, odd labels, "
+         "None/NaN cells, custom columns, custom fluid with all property classes, pump type from parameters, restricted sectors, empty net, a net "
+         "holding a controller). Trace_Hist demands every digest unchanged across each save/load step (tables incl. results with dtypes/index, fluid "
+         "classes and attributes, std types, options, name/sector/component list, converged flag) and equal results to the never-saved twin.",
+    design_ref="DESIGN.md 5 C15",
+    note="Fidelity is digest equality on the explored nets (structure digests + a float-difference class per table); two limits of pandapower's JSON "
+         "encoder are recorded as known findings (15 decimal places, inf -> NaN). Multi-energy nets are left to C20.",
+    technique="TLA+ history machine (MC_Hist) + TLC-generated histories with save/load steps replayed into pandapipes.io + digest trace validation (Trace_Hist)"),
+ "C19": dict(
+    level="model_checking",
+    text="Property classes (constant, linear, tabulated with interpolation/extrapolation), their integrals, the pump lift polynomial and the mixture "
+         "rules are exact rational functions in PPLib; TLC checks the laws on the reference (antisymmetry, additivity, table reproduced, lift >= 0, "
+         "fractions sum to one, molar/mass inverse) and enumerates the case analysis (class x operation x argument shape x argument position x table "
+         "order); every case is evaluated by the real classes and compared exactly by Trace_Lib. Library files of all fluids (values at, between and "
+         "beyond the tabulated points, array shape, compressibility slope = stored derivative) and all library pipe types through create_pipe "
+         "(incl. per-pipe overrides not leaking into the library) are checked against oracle tables parsed from the data files.",
+    design_ref="DESIGN.md 5 C19",
+    note="'model checking' here means enumerating the finite case analysis of self-contained functions with TLC and validating each case against the "
+         "implementation. Polynomial / Sutherland properties and the viscosity mixing rule (square roots) are outside the rational reference.",
+    technique="TLA+ rational reference (Rat/PPLib/GenLib) model-checked with TLC + every generated case evaluated by the real classes + trace validation (Trace_Lib)"),
 }
 NA_REASON = "check not built yet in this round (work in progress; see DESIGN.md section 5 for the planned decision procedure)"
 
